@@ -34,6 +34,12 @@ func runC15(c *core.Ctx) {
 	c.MinInstances("C15-INPUT", 9)
 	c.MinInstances("C15-TS", 6)
 	c.MinInstances("C15-SLOT", 6)
+	// the 16-octet slots are carried by the fixed-width primitives: what is written is the value plus zero padding, what is read
+	// back is exactly the octets (C20 shape rules for these primitives)
+	c.MinInstances("C15-PRIM", 4)
+	importRules(c, "C20", "C15-PRIM", func(o core.Obligation) bool {
+		return o.Rule == "C20-SHAPE" && (strings.Contains(o.Key, "WriteFixedLenString") || strings.Contains(o.Key, "ReadCStringNWithoutTrim") || strings.Contains(o.Key, "ReadCStringN"))
+	})
 	c.Trust("crypto/md5", "fmt %010d prints at least ten digits; time.Format with layout 0102150405 prints exactly ten")
 	c.NotDecided("MD5 itself", "the peer's comparison code (outside the library)")
 	// --- INPUT / TS
